@@ -30,7 +30,7 @@ from cert import Const, Cx, ZERO, ONE, HALF, PI, lift, sqrt, ln, exp, sin, cos, 
 from specb import *
 
 LEVEL = "exploration"
-PRECS_QUICK = [20, 53, 53, 100]
+PRECS_QUICK = [20, 53, 53, 53]
 PRECS_THOROUGH = [20, 53, 100, 200]
 PRECS_EL = [15, 53, 113, 400]
 PRECS_EL_T = [15, 53, 113, 400, 1000]
@@ -41,7 +41,7 @@ NOT_DECIDED = [
     "airyai/airybi values (only the Wronskian), scorergi/scorerhi (only Gi + Hi = Bi), ber/bei/ker/kei, coulombf/coulombg, "
     "lommels1/lommels2: not covered",
     "besselyzero, airyaizero, airybizero, derivative zeros, and the INDEX of any zero (only: a zero lies within the tolerance of the "
-    "returned value); integral references above 100 bits (quick) / 200 bits (thorough)",
+    "returned value); integral references above 53 bits (quick) / 200 bits (thorough)",
 ]
 
 ASSUMPTIONS = [
@@ -256,12 +256,12 @@ IQ = dict(precs=PRECS_QUICK, params=iparams)
 EL = dict(precs=PRECS_EL)
 MQ = dict(precs=PRECS_EL, regime="metamorphic")
 
-reg("besselj_int", "besselj", lambda c, n, x: c.besselj(n, M(c, x)), r_besselj_int, lambda rng, p: [rng.randint(-4, 12), g_xs(rng)], w=2.5, regime="integral", **IQ)
-reg("besseli_int", "besseli", lambda c, n, x: c.besseli(n, M(c, x)), r_besseli_int, lambda rng, p: [rng.randint(-3, 10), g_xs(rng, 20)], w=2.0, regime="integral", **IQ)
-reg("angerj", "angerj", lambda c, v, x: c.angerj(M(c, v), M(c, x)), r_angerj, lambda rng, p: [g_nonint_order(rng), g_xs(rng, 12)], w=1.0, regime="integral", **IQ)
-reg("webere", "webere", lambda c, v, x: c.webere(M(c, v), M(c, x)), r_webere, lambda rng, p: [g_order(rng), g_xs(rng, 12)], w=1.0, regime="integral", **IQ)
-reg("struveh", "struveh", lambda c, n, x: c.struveh(n, M(c, x)), r_struveh, lambda rng, p: [rng.randint(0, 2), abs(g_xs(rng, 20))], w=1.0, regime="integral", **IQ)
-reg("struvel", "struvel", lambda c, n, x: c.struvel(n, M(c, x)), r_struvel, lambda rng, p: [rng.randint(0, 2), abs(g_xs(rng, 12))], w=0.8, regime="integral", **IQ)
+reg("besselj_int", "besselj", lambda c, n, x: c.besselj(n, M(c, x)), r_besselj_int, lambda rng, p: [rng.randint(-4, 12), g_xs(rng)], w=1.5, regime="integral", **IQ)
+reg("besseli_int", "besseli", lambda c, n, x: c.besseli(n, M(c, x)), r_besseli_int, lambda rng, p: [rng.randint(-3, 10), g_xs(rng, 20)], w=1.2, regime="integral", **IQ)
+reg("angerj", "angerj", lambda c, v, x: c.angerj(M(c, v), M(c, x)), r_angerj, lambda rng, p: [g_nonint_order(rng), g_xs(rng, 12)], w=0.6, regime="integral", **IQ)
+reg("webere", "webere", lambda c, v, x: c.webere(M(c, v), M(c, x)), r_webere, lambda rng, p: [g_order(rng), g_xs(rng, 12)], w=0.6, regime="integral", **IQ)
+reg("struveh", "struveh", lambda c, n, x: c.struveh(n, M(c, x)), r_struveh, lambda rng, p: [rng.randint(0, 2), abs(g_xs(rng, 20))], w=0.6, regime="integral", **IQ)
+reg("struvel", "struvel", lambda c, n, x: c.struvel(n, M(c, x)), r_struvel, lambda rng, p: [rng.randint(0, 2), abs(g_xs(rng, 12))], w=0.5, regime="integral", **IQ)
 
 
 def g_half(rng, p):
@@ -302,7 +302,7 @@ reg("m_scorer", "scorergi(x) & scorerhi(x) & airybi(x)", lambda c, x: (c.scorerg
 
 RULE = ("each evaluation = one call (metamorphic kinds: 3-4 calls) of the current /repo code; call form drawn from the %d-entry registry "
         "(every entry once, then by weight); integer orders -4..12, half-integer orders -11/2..13/2, random dyadic orders in [-6, 8]; "
-        "arguments random short dyadics up to 30 (200 for half-integer closed forms); precisions 20/53/100 for integral references "
+        "arguments random short dyadics up to 30 (200 for half-integer closed forms); precisions 20/53 for integral references "
         "(200 thorough), 15..400 (1000 thorough) otherwise; non-trivial = a real Interval/integral proof; distinct = distinct lemma statements"
         % len(K))
 
@@ -312,7 +312,7 @@ def run(rep, tier_, rng):
         for k in K:
             if k.precs is PRECS_QUICK: k.precs = PRECS_THOROUGH
             elif k.precs is PRECS_EL: k.precs = PRECS_EL_T
-    run_kinds(rep, K, tier_, rng, n_quick=int(os.environ.get("VERIF_B3_N", 70)), n_thorough=500, precs_quick=PRECS_QUICK,
+    run_kinds(rep, K, tier_, rng, n_quick=int(os.environ.get("VERIF_B3_N", 50)), n_thorough=500, precs_quick=PRECS_QUICK,
               precs_thorough=PRECS_THOROUGH, assumptions=ASSUMPTIONS, rule=RULE, not_decided=NOT_DECIDED,
               params={"sentence_timeout": 100 if tier_ == "quick" else 400, "single_timeout": 100 if tier_ == "quick" else 400,
                       "batch": 5, "ladder": [1]}, budget_quick=120)
